@@ -118,6 +118,7 @@ end Race
     execute() returned after an operator abort at some scheduling step; the same end-of-run contract applies -/
 def handleAbort (ts : Toks) : String :=
   let (_, real) := splitAt "#" ts
+  if real.contains "R:sigint-outside-the-wait" then reply true false "sigint-outside-the-wait" else
   let fails : List String :=
     (if real.any (·.startsWith "R:") then (real.filter (·.startsWith "R:")).map (fun t => (t.drop 2).toString) else []) ++
     (match (real.filter (·.startsWith "F:")).head? with
